@@ -4,8 +4,11 @@ patch=$1; shift
 cd /repo || exit 3
 if ! git diff --quiet; then echo "/repo is dirty"; exit 3; fi
 git apply "$patch" || { echo "patch does not apply"; exit 3; }
+# evidence written while a seeded change is applied does not describe the unchanged tree: keep the committed files
+bk=$(mktemp -d /verif/target/evidence_backup.XXXX); cp -r /verif/evidence/. $bk/ 2>/dev/null
 for p in "$@"; do
   echo "=== $p with $(basename $(dirname $patch))"
   (cd /verif && timeout 3000 ./check $p --tier ${TIER:-quick} 2>&1 | grep -E "VIOLATION|KNOWN|OK property|INCONCLUSIVE|UNCONFIRMED|counterexample|note:" | cut -c1-260 | head -14; echo "exit=${PIPESTATUS[0]}")
 done
 git checkout -- . 
+rm -rf /verif/evidence/replays; cp -r $bk/. /verif/evidence/; rm -rf $bk
